@@ -71,7 +71,9 @@ impl QGramIndex {
         let text = text.into_iter();
         let ranks = RankTransform::new(alphabet);
 
-        let qgram_count = alphabet.len().pow(q);
+        // q-gram codes pack each symbol rank into `get_width()` bits, so the
+        // code space is a power of two that can exceed |A|^q.
+        let qgram_count = 1usize << (ranks.get_width() as u32 * q);
         let mut address = vec![0; qgram_count + 1];
 
         for qgram in ranks.qgrams(q, text.clone()) {
